@@ -175,6 +175,8 @@ def hand_enums(meta):
     out.append(("WithInit", ns["WithInit"], {0: "DOWN", 1: "LEFT", 2: "UP", 3: "RIGHT"}))
     out.append(("WithMissing", ns["WithMissing"], {1: "One", 2: "Two"}))
     out.append(("Auto", ns["Auto"], {1: "First", 2: "Second", 3: "Third"}))
+    out.append(("OnIntSubclass", ns["OnIntSubclass"], {1: "Low", 2: "High"}))
+    out.append(("OnIntEnumSubclass", ns["OnIntEnumSubclass"], {7: "Seven", 8: "Eight"}))
     # declarations through the functional API of a member-less base (the branch of the metaclass call that
     # takes names): ordinals are start + position (start defaults to 1), or the values given
     out.append(("Func0", ns["Func0"], {0: "A", 1: "B", 2: "C"}))
@@ -260,6 +262,28 @@ class Auto(IntEnum, metaclass=meta):
     First = auto()
     Second = auto()
     Third = auto()
+
+
+class Ordinal(int):
+    """An application's own integer type (say, one that prints itself in a special way)."""
+    def shown(self):
+        return "#%d" % self
+
+
+class OnIntSubclass(Ordinal, Enum, metaclass=meta):
+    Low = 1
+    High = 2
+
+
+class _Base(IntEnum, metaclass=meta):
+    """A member-less base that adds behaviour; the enums proper derive from it."""
+    def describe(self):
+        return "%s/%d" % (self.name, self)
+
+
+class OnIntEnumSubclass(_Base):
+    Seven = 7
+    Eight = 8
 
 
 class FuncBase(IntEnum, metaclass=meta):
